@@ -382,6 +382,110 @@ def gen_fill(ctx):
     return cases
 
 
+def gen_os(ctx):
+    """cases for the build with the REAL util/entropy.c and interposed open/read/close.
+    Returns (heavy `os` cases, light `os` cases, `sess` cases).  A session is <o|x>:<reads>:<closes>."""
+    r = ctx.rng
+
+    def rb(n):
+        return "".join("%02x" % r.randrange(256) for _ in range(n))
+
+    def split(n, cuts):
+        """n random bytes delivered as reads cut at the given positions"""
+        data, out, prev = rb(n), [], 0
+        for c in sorted(set(c for c in cuts if 0 < c < n)) + [n]:
+            out.append(data[2 * prev:2 * c]); prev = c
+        return "/".join(out)
+
+    def healthy(n, cuts=(), closes="k", extra=0):
+        return "o:%s:%s" % (split(n + extra, cuts), closes)
+
+    def failing(n, p, kind, closes="k"):
+        """p < n bytes arrive (in one read), then the read fails: e = -1/EIO, i = -1/EINTR, z = 0 (EOF), q = script ends"""
+        reads = ([rb(p)] if p else []) + ([kind] if kind != "q" else [])
+        return "o:%s:%s" % ("/".join(reads) if reads else "-", closes)
+
+    def line(sessions, reqs):
+        return "os %s %s" % (",".join(sessions) if sessions else "-", ",".join(str(x) for x in reqs) if reqs else "-")
+
+    KINDS = ["e", "i", "z", "q"]
+    light = []
+    # --- instantiation: the entropy session fails at EVERY byte position, in every way, close succeeds ---
+    for p in range(48):
+        for k in KINDS:
+            light.append(line([failing(48, p, k)], [3])); ctx.count("os.instantiate.read-fails." + k)
+    # ... and the next call must start over with a fresh 48-byte session
+    for _ in range(ctx.n(6, 150)):
+        p, k = r.randrange(48), r.choice(KINDS)
+        light.append(line([failing(48, p, k, r.choice(["k", "k", "ik", "e", "-"])), healthy(48, [r.randrange(1, 48)])], [3, 4]))
+        ctx.count("os.instantiate.read-fails.then-retry")
+    # --- instantiation: short reads at every position are NOT failures ---
+    pos = list(range(1, 48))
+    r.shuffle(pos)
+    for p in pos[:ctx.n(10, 47)]:
+        light.append(line([healthy(48, [p])], [5])); ctx.count("os.instantiate.short-read")
+    light.append(line([healthy(48, range(1, 48))], [5])); ctx.count("os.instantiate.byte-at-a-time")
+    light.append(line([healthy(48, [], extra=7)], [5])); ctx.count("os.instantiate.longer-than-asked")
+    light.append(line([healthy(48, [40], extra=9)], [5])); ctx.count("os.instantiate.longer-than-asked")
+    for _ in range(ctx.n(4, 100)):
+        light.append(line([healthy(48, [r.randrange(1, 48) for _ in range(r.randrange(1, 6))], r.choice(["k", "ik", "iiik"]))],
+                          [r.choice(BOUNDARY_LENS[:13])]))
+        ctx.count("os.instantiate.short-reads-random")
+    # --- open fails; close fails after a complete fill; EINTR on close is retried ---
+    light.append(line(["x:-:-", healthy(48)], [3, 3])); ctx.count("os.open-fails")
+    light.append(line(["x:%s:k" % rb(48)], [3])); ctx.count("os.open-fails")
+    for cl in ["e", "ie", "-", "ii", "iie"]:
+        light.append(line([healthy(48, [], cl), healthy(48)], [3, 3])); ctx.count("os.close-fails")
+    for cl in ["ik", "iik", "iiiiik", "ke"]:
+        light.append(line([healthy(48, [20], cl)], [3])); ctx.count("os.close-eintr-retried")
+    light.append(line(["x:-:-", failing(48, 47, "e"), healthy(48, [], "e"), failing(48, 0, "z", "e"), healthy(48, [1, 2])],
+                      [1, 0, 2, 3, 33, 5]))
+    ctx.count("os.failures-in-a-row")
+    light.append(line([], [4, 4])); ctx.count("os.script-exhausted")
+    # --- reseeds (generate calls 257 and 513): one history with a failing session at every position ---
+    heavy = []
+    fails1 = [failing(32, p, k) for p in range(32) for k in KINDS]
+    fails1 += ["x:-:-", healthy(32, [], "e"), healthy(32, [5], "ie"), healthy(32, [], "-"), failing(32, 31, "e", "e")]
+    r.shuffle(fails1)
+    fails2 = [failing(32, r.randrange(32), r.choice(KINDS), r.choice(["k", "k", "ik", "e"])) for _ in range(ctx.n(10, 60))] + ["x:-:-"]
+    sessions = [healthy(48, [r.randrange(1, 48)])] + fails1 + [healthy(32, [r.randrange(1, 32)], "ik")] + fails2 + \
+               [healthy(32, range(1, 32))]
+    reqs = [1] * 256 + [r.choice([1, 2, 33]) for _ in fails1] + [1] * 256 + [r.choice([1, 40]) for _ in fails2] + [7, 7, 7]
+    heavy.append(line(sessions, reqs))
+    ctx.count("os.reseed.read-fails", 32 * len(KINDS)); ctx.count("os.reseed.open-or-close-fails", 5)
+    ctx.count("os.reseed2.session-fails", len(fails2))
+    if not ctx.quick:
+        # short histories with one failing reseed session, then a retry
+        for _ in range(4):
+            heavy.append(line([healthy(48), failing(32, r.randrange(32), r.choice(KINDS), r.choice(["k", "e"])), healthy(32, [9])],
+                              [1] * 256 + [2, 3]))
+            ctx.count("os.reseed.single-failure")
+        # the reseed falls in the middle of a multi-chunk request
+        heavy.append(line([healthy(48), failing(32, 5, "e"), healthy(32, [16])], [1] * 255 + [65536 + 9, 9]))
+        ctx.count("os.reseed.mid-request")
+    # --- entropy_read alone on random scripts ---
+    sess = []
+    for _ in range(ctx.n(400, 8000)):
+        n = r.choice([0, 1, 2, 31, 32, 32, 48, 48, 48, 100])
+        reads, left = [], n
+        for _ in range(r.randrange(0, 6)):
+            k = r.randrange(12)
+            if k == 0:
+                reads.append("e")
+            elif k == 1:
+                reads.append("i")
+            elif k == 2:
+                reads.append("z")
+            else:
+                ln = r.choice([1, 1, 2, max(1, left), max(1, left), max(1, left // 2), left + 3, 48])
+                reads.append(rb(ln)); left = max(0, left - ln)
+        closes = r.choice(["k", "k", "k", "k", "ik", "iik", "e", "ie", "-", "i", "ke"])
+        opn = "x" if r.randrange(12) == 0 else "o"
+        sess.append("sess %d %s:%s:%s" % (n, opn, "/".join(reads) if reads else "-", closes))
+        ctx.count("sess.open-fails" if opn == "x" else "sess.random-script")
+    return heavy, light, sess
+
+
 def par(*fns):
     """run the thunks concurrently, return their results in order"""
     out = [None] * len(fns)
@@ -400,17 +504,28 @@ def strip_ent(l):
     return l.split(" ent=")[0]
 
 
+def strip_sys(l):
+    return l.split(" sys=")[0]
+
+
 def check_drbg(ctx):
     sub = "drbg"
     none_h = os.path.join(vlib.VERIF, "harness", "cpuconfig", "none.h")
-    exe, err = vlib.build_c(bname("drv_drbg_asan"), "drv_drbg.c", DRBG_SRCS, cpuconfig=none_h, asan=True)
+    (exe, err), (fexe, ferr), (oexe, oerr) = par(
+        lambda: vlib.build_c(bname("drv_drbg_asan"), "drv_drbg.c", DRBG_SRCS, cpuconfig=none_h, asan=True),
+        lambda: vlib.build_c(bname("drv_drbg_fill"), "drv_drbg.c", ["util/warnp.c"], cflags=["-DDRV_FILL"],
+                             wraps=["read"], cpuconfig=none_h, asan=True),
+        # the REAL util/entropy.c of the repository under crypto_entropy.c; only the system calls are scripted
+        lambda: vlib.build_c(bname("drv_drbg_os"), "drv_drbg.c", DRBG_SRCS + ["util/entropy.c"], cflags=["-DDRV_OS"],
+                             wraps=["open", "open64", "read", "close"], cpuconfig=none_h, asan=True))
     if not exe:
         ctx.fail(sub, "build", "", "C driver does not build: " + err)
         return
-    fexe, err = vlib.build_c(bname("drv_drbg_fill"), "drv_drbg.c", ["util/warnp.c"], cflags=["-DDRV_FILL"],
-                             wraps=["read"], cpuconfig=none_h, asan=True)
     if not fexe:
-        ctx.fail(sub, "build", "", "C driver (entropy_read_fill) does not build: " + err)
+        ctx.fail(sub, "build", "", "C driver (entropy_read_fill) does not build: " + ferr)
+        return
+    if not oexe:
+        ctx.fail(sub, "build", "", "C driver (real util/entropy.c, system calls interposed) does not build: " + oerr)
         return
     mexe, err = vlib.build_model("drbg")
     if not mexe:
@@ -418,23 +533,34 @@ def check_drbg(ctx):
         return
     env = {"ASAN_OPTIONS": "detect_leaks=1:abort_on_error=0"}
     if getattr(ctx, "replay", None) and ctx.replay.get("failing_input", {}).get("sub", "").startswith(sub):
-        heavy, light, fills = [], [ctx.replay["failing_input"]["case"]], []
-        if light[0].startswith("fill"):
-            heavy, light, fills = [], [], light
+        heavy, light, fills, os_heavy, os_light, sess = [], [], [], [], [], []
+        one = ctx.replay["failing_input"]["case"]
+        {"fill": fills, "os": os_light, "sess": sess}.get(one.split()[0], light).append(one)
     else:
         heavy, light = gen_drbg(ctx)
         light = corpus_cases("drbg", ("drbg",)) + light
         fills = corpus_cases("drbg", ("fill",)) + gen_fill(ctx)
+        os_heavy, os_light, sess = gen_os(ctx)
+        os_light = corpus_cases("drbg", ("os",)) + os_light
+        sess = corpus_cases("drbg", ("sess",)) + sess
     # the spec is run on everything except (quick tier) the two 65536-byte generates, which cost
     # ~20 s of extracted HMACs each; those are compared with the model only (proved = spec)
     spec_heavy = [c for c in heavy if ctx.n(not re.search(r" 6553[67]$", c), True)]
     cases = heavy + light
-    (impl, st), (model_h, _), (spec_h, _), (model_l, _), (spec_l, _) = par(
+    os_small = os_light + sess
+    os_cases = os_small + os_heavy                # the short ones first: they are what a report should show
+    ((impl, st), (model_h, _), (spec_h, _), (model_l, _), (spec_l, _),
+     (os_impl, os_st), (os_model_h, _), (os_spec_h, _), (os_model_s, _), (os_spec_s, _)) = par(
         lambda: vlib.run_sharded(exe, cases, env=env, timeout=900),
         lambda: vlib.run_sharded(mexe, heavy, shards=len(heavy) or 1, timeout=1500),
         lambda: vlib.run_sharded(mexe, ["spec " + c for c in spec_heavy], shards=len(spec_heavy) or 1, timeout=1500),
         lambda: vlib.run_sharded(mexe, light, shards=4, timeout=900),
-        lambda: vlib.run_sharded(mexe, ["spec " + c for c in light], shards=4, timeout=900))
+        lambda: vlib.run_sharded(mexe, ["spec " + c for c in light], shards=4, timeout=900),
+        lambda: vlib.run_sharded(oexe, os_cases, shards=4, env=env, timeout=900),
+        lambda: vlib.run_sharded(mexe, os_heavy, shards=len(os_heavy) or 1, timeout=1500),
+        lambda: vlib.run_sharded(mexe, ["spec " + c for c in os_heavy], shards=len(os_heavy) or 1, timeout=1500),
+        lambda: vlib.run_sharded(mexe, os_small, shards=2, timeout=900),
+        lambda: vlib.run_sharded(mexe, ["spec " + c for c in os_small], shards=2, timeout=900))
     vlib.sanitizer_reports(ctx, sub, st)
     sh = dict(zip(spec_heavy, spec_h))
     model = model_h + model_l
@@ -455,6 +581,34 @@ def check_drbg(ctx):
                "requests across the reseeds before generate calls 257 and 513, entropy failure at instantiation, at "
                "a reseed, repeated, exhausted; non-trivial = distinct (case, result)",
                samples=[light[0][:160] if light else "", heavy[-1][:160] if heavy else ""])
+    # crypto_entropy.c over the real util/entropy.c over scripted open/read/close
+    if os_cases:
+        vlib.sanitizer_reports(ctx, sub + ".os", os_st)
+        os_model, os_spec = os_model_s + os_model_h, os_spec_s + os_spec_h
+        short = lambda c: c if len(c) < 900 else c[:900] + "..."
+        # the spec knows nothing of the individual system calls: compared without the sys= part
+        nd = vlib.tri_compare(ctx, sub + ".os", os_cases, [strip_sys(a) for a in os_impl], [strip_sys(m) for m in os_model],
+                              os_spec, describe=short)
+        if nd == 0:
+            # same results but different system calls (a descriptor not closed, a read that does not ask for
+            # the unfilled rest, another device): the correspondence is broken, the property not refuted
+            vlib.compare(ctx, sub + ".os.system-calls", os_cases, os_impl, os_model, describe=short,
+                         property_pred=lambda c, a, b: (False, None))
+        ctx.record(sub + ".os", os_cases, set((c[:200], a[:200]) for c, a in zip(os_cases, os_impl)),
+                   "crypto_entropy_read (crypto_entropy.c #included) over the repository's REAL util/entropy.c, with "
+                   "open/read/close interposed (--wrap) and scripted per session, vs the extracted model (crypto_entropy.c "
+                   "model composed over the model of entropy_read_init/fill/done and the one-shot entropy_read) and vs the "
+                   "SP 800-90A spec fed with what DrbgOsSpec.v says the sessions delivered: at the instantiation, at the "
+                   "first reseed (generate call 257) and at the second (513) the session fails after every byte position "
+                   "0..n-1 by read = -1/EIO, -1/EINTR, 0 (EOF) and end of script with close succeeding, by open failing, "
+                   "by close failing / EINTR-then-failing after a complete fill; short reads at every position, byte-at-a-"
+                   "time, answers longer than asked, close EINTR retried; failed calls must return -1, leave Key/V/"
+                   "reseed_counter/instantiated as they were and be retried with a fresh session; `sess`: entropy_read "
+                   "alone on random scripts incl. buflen 0; per session the size of the first read and the numbers of "
+                   "read/close answers consumed are compared too, and the wrappers check device path, O_RDONLY, descriptor, "
+                   "that each read asks exactly for the unfilled rest, and that no descriptor stays open; "
+                   "non-trivial = distinct (case, result)",
+                   samples=[os_light[0][:160] if os_light else "", sess[0][:160] if sess else ""])
     # util/entropy.c read loop
     if fills:
         fi, st = vlib.run_sharded(fexe, fills, env=env)
